@@ -88,6 +88,17 @@ theorem C07_exponential_d2 (A n r : ℝ) (hr : 0 < r) :
   rw [this, Real.rpow_sub_one hr.ne' (n - 1)]
   field_simp
 
+/-- the guards `if n == 0: return 0.0` (deriv) and `if n == 0 or n == 1: return 0.0` (deriv2) placed before the formulas since the fix of the `ZeroDivisionError`
+    at r = 0: the value returned IS the formula's value for that exponent, for every A and r (over ℝ, where `0 * r^(-1) = 0`), so the guards only extend the
+    formulas to the point where the floating-point expression `0.0 ** -1.0` raises -/
+theorem C07_exponential_guards (A n r : ℝ) :
+    (∀ g ∈ exponential_deriv_guards, ev [A, n] g.1 r = ev [A, n] g.2 r) ∧
+    (∀ g ∈ exponential_deriv2_guards, ev [A, n] g.1 r = ev [A, n] g.2 r) := by
+  constructor <;> intro g hg <;>
+    simp only [exponential_deriv_guards, exponential_deriv2_guards, List.mem_cons, List.mem_singleton, List.not_mem_nil, or_false] at hg <;>
+    (try rcases hg with rfl | rfl) <;> (try subst hg) <;>
+    simp [ev, evalR, envOf]
+
 theorem C07_hbnd_d1 (A B r : ℝ) (hr : 0 < r) : HasDerivAt (ev [A, B] hbnd_call) (ev [A, B] hbnd_deriv r) r := by
   have h := hasDerivAt_evalR (envOf [A, B]) noSyms hbnd_call r
     (by simp [Dom, evalR, hbnd_call, envOf, hr.ne'])
@@ -277,9 +288,39 @@ theorem zbl_abs (c κ S a1 a2 a3 a4 b1 b2 b3 b4 r : ℝ) (hr : r ≠ 0) :
   generalize Real.exp (κ * r * S * b4) = e4 at *
   deriv_close
 
+/-- four screened-Coulomb terms, the derivative written term by term with negative exponents only - the form the code has since the fix of the
+    `OverflowError` (the earlier form factored out `exp(-κ r S Σb)` and evaluated POSITIVE exponents, which overflow inside 30 Å for heavy pairs) -/
+theorem zbl_abs2 (c κS a1 a2 a3 a4 b1 b2 b3 b4 r : ℝ) (hr : r ≠ 0) :
+    HasDerivAt (fun x => c / x *
+        ( a1 * Real.exp (-(b1 * x) * κS) + a2 * Real.exp (-(b2 * x) * κS)
+        + a3 * Real.exp (-(b3 * x) * κS) + a4 * Real.exp (-(b4 * x) * κS)))
+      (-c * ( a1 * (1 + b1 * κS * r) * Real.exp (-b1 * κS * r) + a2 * (1 + b2 * κS * r) * Real.exp (-b2 * κS * r)
+            + a3 * (1 + b3 * κS * r) * Real.exp (-b3 * κS * r) + a4 * (1 + b4 * κS * r) * Real.exp (-b4 * κS * r)) / r ^ 2) r := by
+  have h1 : HasDerivAt (fun x : ℝ => c / x) (-c / r^2) r := by
+    have := (hasDerivAt_inv hr).const_mul c
+    simpa [div_eq_mul_inv, neg_mul, mul_neg] using this
+  have h2 : ∀ B : ℝ, HasDerivAt (fun x : ℝ => Real.exp (-(B * x) * κS))
+      (Real.exp (-(B * r) * κS) * (-(B) * κS)) r := by
+    intro B
+    have : HasDerivAt (fun x : ℝ => -(B * x) * κS) (-(B) * κS) r := by
+      have := ((hasDerivAt_id' r).const_mul B).neg.mul_const κS
+      simpa using this
+    exact this.exp
+  have hsum := ((((h2 b1).const_mul a1).fun_add ((h2 b2).const_mul a2)).fun_add ((h2 b3).const_mul a3)).fun_add
+    ((h2 b4).const_mul a4)
+  refine (h1.fun_mul hsum).congr_deriv ?_
+  have hE : ∀ B : ℝ, Real.exp (-(B * r) * κS) = Real.exp (-B * κS * r) := by
+    intro B; congr 1; ring
+  rw [hE, hE, hE, hE]
+  generalize Real.exp (-b1 * κS * r) = e1
+  generalize Real.exp (-b2 * κS * r) = e2
+  generalize Real.exp (-b3 * κS * r) = e3
+  generalize Real.exp (-b4 * κS * r) = e4
+  deriv_close
+
 theorem C07_zbl_d1 (z1 z2 r : ℝ) (hr : 0 < r) (h1 : 0 < z1) (h2 : 0 < z2) :
     HasDerivAt (zblK zblKcode z1 z2) (ev [z1, z2] zbl_deriv r) r := by
-  have h := zbl_abs ((1439942 / 10^5 : ℝ) * (z1 * z2)) zblKcode (z1 ^ (23 / 100 : ℝ) + z2 ^ (23 / 100 : ℝ))
+  have h := zbl_abs2 ((1439942 / 10^5 : ℝ) * (z1 * z2)) (zblKcode * (z1 ^ (23 / 100 : ℝ) + z2 ^ (23 / 100 : ℝ)))
     (1818 / 10^4) (5099 / 10^4) (2802 / 10^4) (2817 / 10^5) (32 / 10) (9423 / 10^4) (4029 / 10^4) (2016 / 10^4) r hr.ne'
   have hf : zblK zblKcode z1 z2 = fun x => (1439942 / 10^5 : ℝ) * (z1 * z2) / x *
         ( (1818 / 10^4 : ℝ) * Real.exp (-((32 / 10 : ℝ) * x) * (zblKcode * (z1 ^ (23 / 100 : ℝ) + z2 ^ (23 / 100 : ℝ))))
@@ -294,8 +335,10 @@ theorem C07_zbl_d1 (z1 z2 r : ℝ) (hr : 0 < r) (h1 : 0 < z1) (h2 : 0 < z2) :
     unfold zblKcode; norm_num
   rw [hK]
   push_cast
-  generalize z1 ^ ((23:ℝ) / 100) + z2 ^ ((23:ℝ) / 100) = S
-  generalize zblKcode = K
+  generalize zblKcode * (z1 ^ ((23:ℝ) / 100) + z2 ^ ((23:ℝ) / 100)) = KS
+  have hE : ∀ B : ℝ, Real.exp (-B * KS * r) = Real.exp (-(B * KS * r)) := by
+    intro B; congr 1; ring
+  norm_num [hE]
   ring_nf
 
 /-! ### ZBL second derivative
